@@ -745,10 +745,15 @@ def oracle_ci_sequence(d):
                 fails.append(("CImages.increment|highest-peak-not-climbing",
                               f"step {step}, energies {es}: the highest peak is image {i} ({type(imgs[i]).__name__}) but its force "
                               f"{f.tolist()} is not -g + 2(g.tau)tau = {f_ci.tolist()}"))
-            if i != top and (isinstance(imgs[i], CImage) or not vclose(f, f_neb)):
+            if i != top and isinstance(imgs[i], CImage):
+                # ONLY this: an image that is no longer (or never was) the highest peak still is a CImage
                 fails.append(("CImages.increment|stale-climbing-image",
-                              f"step {step}, energies {es}: image {i} ({type(imgs[i]).__name__}) is not the highest peak (image {top}) but "
-                              f"its force {f.tolist()} is not the NEB force {f_neb.tolist()}"))
+                              f"step {step}, energies {es}: image {i} is not the highest peak (image {top}) but still is a CImage "
+                              f"(force {f.tolist()}, NEB force {f_neb.tolist()})"))
+            elif i != top and not vclose(f, f_neb):
+                fails.append(("CImages.increment|non-climbing-image-force",
+                              f"step {step}, energies {es}: image {i} (a plain Image, not the highest peak {top}) feels {f.tolist()}, "
+                              f"not the NEB force {f_neb.tolist()}"))
     seen, out = set(), []
     for k, w in fails:          # one instance per key is enough for a replay
         if k not in seen:
